@@ -158,6 +158,18 @@ CHECKS.update({
             "DESIGN.md 4/C04"),
 })
 
+CHECKS.update({
+    "C10": ("exploration",
+            "exhaustive enumeration of views files (all sequences of <=K views over 23 filters) x merchant sets (<=3 of 12 payment histories) through the real analyse/classify chain against reference primitives recomputed from raw transactions; independence and totals transition oracles",
+            "Every sequence of <=2 views over 23 filters (thorough: also <=3 over a 10-filter sub-alphabet) x every set of <=3 merchants from 12 payment histories runs through "
+            "analyze_transactions -> classify_by_sections -> compute_section_totals; each (view, merchant) membership must equal the filter evaluated by mc/ref/views.py over the "
+            "merchant's own raw payments (months, total, population cv, tags, by(), aggregates, period(), global and view-local variables), merchants tagged income/transfer/"
+            "investment in any letter case never appear, an unevaluable filter excludes, a view's membership must equal its membership when it is the only view, and each view's "
+            "total is the sum of its members' totals.",
+            "cv with zero mean, by(week) across a year boundary, stddev() and duplicate view names are not judged",
+            "DESIGN.md 4/C10"),
+})
+
 NOT_YET = {}
 
 PROPS = [json.loads(l)["id"] for l in open(os.path.join(ROOT, "properties.jsonl"))]
